@@ -552,3 +552,70 @@ func TestPreexistingIDsRapid(t *testing.T) {
 		}
 	})
 }
+
+// TestContextIsolationRapid: giving a context an org id yields a new context; contexts derived earlier
+// from the same parent (a handler fanning out one request per tenant), and the parent itself, keep
+// theirs - through the direct call and through every receiving side, which calls it too.
+func TestContextIsolationRapid(t *testing.T) {
+	rapid.Check(t, func(rt *rapid.T) {
+		ids := rapid.SliceOfNDistinct(rapid.StringMatching(`[a-z][a-z0-9-]{0,6}`), 2, 5, func(s string) string { return s }).Draw(rt, "ids")
+		type node struct {
+			ctx  context.Context
+			want string // "" = none
+		}
+		root := node{ctx: context.Background()}
+		if rapid.Bool().Draw(rt, "rootHasID") {
+			root = node{ctx: user.InjectOrgID(context.Background(), "root-tenant"), want: "root-tenant"}
+		}
+		nodes := []node{root}
+		steps := rapid.IntRange(2, 8).Draw(rt, "derivations")
+		for i := 0; i < steps; i++ {
+			parent := nodes[rapid.IntRange(0, len(nodes)-1).Draw(rt, "parent")]
+			id := ids[rapid.IntRange(0, len(ids)-1).Draw(rt, "id")]
+			var child context.Context
+			switch rapid.IntRange(0, 2).Draw(rt, "how") {
+			case 0:
+				child = user.InjectOrgID(parent.ctx, id)
+			case 1:
+				req := httptest.NewRequest("GET", "http://x/", nil).WithContext(parent.ctx)
+				req.Header.Set(user.OrgIDHeaderName, id)
+				_, c, err := user.ExtractOrgIDFromHTTPRequest(req)
+				if err != nil {
+					rt.Fatalf("extract: %v", err)
+				}
+				child = c
+			default:
+				_, c, err := user.ExtractFromGRPCRequest(metadata.NewIncomingContext(parent.ctx, metadata.Pairs("x-scope-orgid", id)))
+				if err != nil {
+					rt.Fatalf("extract: %v", err)
+				}
+				child = c
+			}
+			nodes = append(nodes, node{child, id})
+			vx.Eval(1)
+			for k, n := range nodes {
+				got, err := user.ExtractOrgID(n.ctx)
+				if n.want == "" {
+					if err == nil {
+						rt.Fatalf("after derivation %d the context %d, which never had an org id, carries %q", i, k, got)
+					}
+					continue
+				}
+				if err != nil || got != n.want {
+					rt.Fatalf("after derivation %d (id %q from context %d) the context %d made for %q carries %q (%v)", i, id, k, k, n.want, got, err)
+				}
+			}
+		}
+		vx.NonTrivial(vx.FP("isolation", fmt.Sprint(ids), steps))
+		// each of them arrives as itself after a hop
+		for _, n := range nodes[1:] {
+			out, err := runHop(hopGRPC, n.ctx)
+			if err != nil {
+				rt.Fatalf("hop: %v", err)
+			}
+			if got, _ := user.ExtractOrgID(out); got != n.want {
+				rt.Fatalf("the context made for %q arrives as %q after a gRPC hop", n.want, got)
+			}
+		}
+	})
+}
